@@ -262,6 +262,16 @@ where
                     }
                 }
 
+                #[cfg(mini_mcmc_verif)]
+                crate::verif::push(crate::verif::Event::ReporterTick {
+                    phase: 0,
+                    total,
+                    recent: most_recent.iter().map(|x: &Option<ChainStats>| x.as_ref().map(|s| s.n)).collect(),
+                    active: active.iter().map(|(i, _)| *i).collect(),
+                    next_active,
+                    n_finished,
+                });
+
                 // Update chain progress bar messages
                 // and compute average acceptance probability
                 let mut to_replace = vec![false; active.len()];
@@ -315,6 +325,16 @@ where
                 for i in to_remove.iter().rev() {
                     active.remove(*i);
                 }
+
+                #[cfg(mini_mcmc_verif)]
+                crate::verif::push(crate::verif::Event::ReporterTick {
+                    phase: 1,
+                    total,
+                    recent: most_recent.iter().map(|x: &Option<ChainStats>| x.as_ref().map(|s| s.n)).collect(),
+                    active: active.iter().map(|(i, _)| *i).collect(),
+                    next_active,
+                    n_finished,
+                });
 
                 if n_finished >= most_recent.len() {
                     break;
